@@ -307,11 +307,13 @@ def _check_loop_transcript(ctx, P, f, via):
                     if c.get("name") == src.a[0]:
                         m = _re.search(r"; (\d+)\]$", (c.get("value") or {}).get("ty", ""))
                         n = int(m.group(1)) if m else None
-            elif src.op == "param":
+            elif src.op == "param" and site is not None:
                 arg = site.args[src.a[0] - 1] if src.a[0] - 1 < len(site.args) else None
                 if arg is not None:
                     el = _arg_roles(arg)
                     n = len(el) if len(el) > 1 else F.table_len(arg)
+            elif src.op == "agg" and src.a[0][0] == "array":
+                n = len(src.a[1])
             else:
                 n = F.table_len(src)
             lens.append(n)
